@@ -249,11 +249,30 @@ def r3(F, R):
             return any(reads_files(nb, t3, depth + 1) for nb in F.nested(kb) for _, t3 in nb.calls())
         return False
     n_ret, bad = 0, None
+    def is_expander(fc, op, mk):
+        """operand `op` (of a map-like adaptor in fc) is the expanding closure mk, or the fn item mk (`.map(Self::expand)`)"""
+        if A.closure_of_operand(F, fc, op) is mk:
+            return True
+        fi = op_fn(op)
+        if fi is None:
+            l = op_local(op)
+            sd = fc.single_def(A.canon_place(fc, {"l": l, "p": []})["l"]) if l is not None else None
+            if sd and sd[1] == "assign" and sd[2]["rv"]["k"] in ("use", "cast"):
+                fi = op_fn(sd[2]["rv"]["op"])
+        return fi is not None and (F.body(fi.get("res") or fi["path"], fc.crate) is mk or F.body(fi["path"], fc.crate) is mk)
+    holders = []
     for mk, s_use in uses:
-        fc = F.parent_body(mk) if mk.kind == "Closure" else mk
-        if fc is None:
-            continue
-        emaps = [s2 for s2, t2 in fc.calls(lambda t2: callee_is(t2, r"Iterator::(map|flat_map|filter_map)$") and A.closure_of_operand(F, fc, t2["args"][1]) is mk)]
+        if mk.kind == "Closure":
+            if F.parent_body(mk) is not None:
+                holders.append((mk, F.parent_body(mk)))
+        else:
+            # a private fn item: the bodies that hand it to an adaptor (or call it per element)
+            for site, how, f in F.fn_refs("^" + re.escape(mk.name) + "$"):
+                if site.body is not mk and (mk, site.body) not in holders:
+                    holders.append((mk, site.body))
+    for mk, fc in holders:
+        emaps = [s2 for s2, t2 in fc.calls(lambda t2: callee_is(t2, r"Iterator::(map|flat_map|filter_map)$") and len(t2["args"]) > 1 and is_expander(fc, t2["args"][1], mk))]
+        emaps += [s2 for s2, t2 in fc.calls(lambda t2: F.callee_body(t2, fc.crate) is mk)]     # explicit loop: `out.push(Self::expand(f))`
         for site, kind, payload in fc.defs.get(0, []):
             ops = A.rvalue_operands(payload["rv"]) if kind == "assign" else payload["args"]
             sl = A.slice_back(fc, ops)
